@@ -1,12 +1,190 @@
 /- Drv/C19.lean — driver handler for property C19 (line protocol; core-only imports). -/
 import FunsorVerif.Core.Sexp
-import FunsorVerif.Core.XR
+import FunsorVerif.Model.C19
 namespace FV.Drv.C19
-open FV
+open FV FV.C19
 
-/-- `args` are the top-level S-expressions following the property tag on the request line. -/
+abbrev V := Option Int
+
+def showV : V → Sexp
+  | some i => Sexp.ofInt i
+  | none => Sexp.atom "none"
+
+def showErr : Err → String
+  | .valueError => "ok (raise ValueError)"
+  | .keyError => "ok (raise KeyError)"
+  | .assertionError => "ok (raise AssertionError)"
+
+def showArr (a : Arr V) : Sexp :=
+  Sexp.list [Sexp.atom "arr", Sexp.ofNats a.shape, Sexp.list (a.toFlat.map showV)]
+
+def showInputs (i : Inputs) : Sexp :=
+  Sexp.list (i.map fun p => Sexp.list [Sexp.str p.1, Sexp.ofNat p.2])
+
+def showDtype : Option Nat → Sexp
+  | none => Sexp.atom "real"
+  | some n => Sexp.ofNat n
+
+def showTensor (t : Tensor V) : Sexp :=
+  Sexp.list [Sexp.atom "tensor", showInputs t.inputs, Sexp.ofNats t.data.shape,
+    Sexp.list (t.data.toFlat.map showV), showDtype t.dtype]
+
+def optOf {β : Type} (f : Sexp → Option β) : Sexp → Option (Option β)
+  | Sexp.atom "none" => some none
+  | s => (f s).map some
+
+def parseArr (shape flat : Sexp) : Option (Arr V) := do
+  let sh ← shape.asNats?
+  let xs ← flat.asInts?
+  if xs.length = prod sh then some (Arr.ofFlat sh xs) else none
+
+def parsePairsIS (s : Sexp) : Option (List (Int × String)) := do
+  let xs ← s.asList?
+  xs.mapM fun
+    | Sexp.list [d, n] => do some ((← d.asInt?), (← n.asStr?))
+    | _ => none
+
+def parsePairsSI (s : Sexp) : Option (List (String × Int)) := do
+  let xs ← s.asList?
+  xs.mapM fun
+    | Sexp.list [n, d] => do some ((← n.asStr?), (← d.asInt?))
+    | _ => none
+
+def parseInputs (s : Sexp) : Option Inputs := do
+  let xs ← s.asList?
+  xs.mapM fun
+    | Sexp.list [n, d] => do some ((← n.asStr?), (← d.asNat?))
+    | _ => none
+
+def parseDtype : Sexp → Option (Option Nat)
+  | Sexp.atom "real" => some none
+  | s => s.asNat?.map some
+
+/-- `(tensor (inputs) (shape) (flat) dtype)`; refuses tensors violating `Tensor.__init__`'s
+    assertion (sizes of the leading axes = input sizes). -/
+def parseTensor (s : Sexp) : Option (Tensor V) := do
+  match s with
+  | Sexp.list [Sexp.atom "tensor", i, sh, fl, dt] =>
+    let inputs ← parseInputs i
+    let a ← parseArr sh fl
+    let dtype ← parseDtype dt
+    if inputs.map (·.2) = a.shape.take inputs.length ∧ inputs.length ≤ a.shape.length then
+      some ⟨inputs, a, dtype⟩
+    else none
+  | _ => none
+
+def ofNatV (n : Nat) : V := some (n : Int)
+
+def opsV (k : Nat) (a b : V) : V :=
+  match a, b with
+  | some x, some y => some (match k with | 0 => x + y | 1 => x * y | _ => x - y)
+  | _, _ => none
+
+def opIdx : String → Option Nat
+  | "add" => some 0 | "mul" => some 1 | "sub" => some 2 | _ => none
+
+def parseTerm : Sexp → Option (Term V)
+  | Sexp.list [Sexp.atom "var", n, s] => do some (.var (← n.asStr?) (← s.asNat?))
+  | Sexp.list [Sexp.atom "rvar", n] => do some (.rvar (← n.asStr?))
+  | Sexp.list [Sexp.atom "binary", Sexp.atom op, l, r] => do
+      some (.binary (← opIdx op) (← parseTerm l) (← parseTerm r))
+  | s => (parseTensor s).map .tensor
+
+def showExcT (r : Except Err (Tensor V)) : String :=
+  match r with
+  | .ok t => "ok " ++ toString (showTensor t)
+  | .error e => showErr e
+
+def showExcA (r : Except Err (Arr V)) : String :=
+  match r with
+  | .ok a => "ok " ++ toString (showArr a)
+  | .error e => showErr e
+
+/-- All points of a box, row-major. -/
+def points : List Nat → List (List Nat)
+  | [] => [[]]
+  | s :: ss => (List.range s).flatMap fun i => (points ss).map (i :: ·)
+
+def envOf (names : List String) (vals : List Nat) : String → Nat :=
+  fun n => match lookup n (names.zip vals) with | some v => v | none => 0
+
+/--
+  C19 ravel (shape) (idx)                      row-major offset
+  C19 unravel (shape) k                        multi-index
+  C19 tofunsor (shape) (flat) OUT DTYPE D2N    tensor_to_funsor
+  C19 todata TENSOR N2D                        tensor_to_data
+  C19 roundtrip (shape) (flat) OUT DTYPE D2N N2D   to_funsor then to_data
+  C19 align TENSOR ("name"…)                   Tensor.align
+  C19 aligntensor (inputs) TENSOR expand       align_tensor
+  C19 aligntensors (TENSOR…) expand            align_tensors
+  C19 materialize TERM                         materialize then eager evaluation
+  C19 denotetable TERM (inputs)                spec: value at every point of the box
+  C19 tensortable TENSOR (inputs)              value of a tensor at every named point of the box
+-/
 def handle (args : List Sexp) : String :=
   match args with
-  | _ => "err unimplemented"
+  | [Sexp.atom "ravel", sh, ix] =>
+    match sh.asNats?, ix.asNats? with
+    | some s, some i => if inb s i then s!"ok {ravel s i}" else "ok oob"
+    | _, _ => "err bad-args"
+  | [Sexp.atom "unravel", sh, k] =>
+    match sh.asNats?, k.asNat? with
+    | some s, some k => "ok " ++ toString (Sexp.ofNats (unravel s k))
+    | _, _ => "err bad-args"
+  | [Sexp.atom "tofunsor", sh, fl, out, dt, d2n] =>
+    match parseArr sh fl, optOf Sexp.asNats? out, parseDtype dt, optOf parsePairsIS d2n with
+    | some x, some out, some dt, some d2n => showExcT (toFunsor x out dt d2n)
+    | _, _, _, _ => "err bad-args"
+  | [Sexp.atom "todata", t, n2d] =>
+    match parseTensor t, optOf parsePairsSI n2d with
+    | some t, some n2d => showExcA (toData t n2d)
+    | _, _ => "err bad-args"
+  | [Sexp.atom "roundtrip", sh, fl, out, dt, d2n, n2d] =>
+    match parseArr sh fl, optOf Sexp.asNats? out, parseDtype dt, optOf parsePairsIS d2n,
+        optOf parsePairsSI n2d with
+    | some x, some out, some dt, some d2n, some n2d =>
+      match toFunsor x out dt d2n with
+      | .ok f => showExcA (toData f n2d)
+      | .error e => showErr e
+    | _, _, _, _, _ => "err bad-args"
+  | [Sexp.atom "align", t, names] =>
+    match parseTensor t, names.asStrs? with
+    | some t, some names => showExcT (t.align names)
+    | _, _ => "err bad-args"
+  | [Sexp.atom "aligntensor", inputs, t, ex] =>
+    match parseInputs inputs, parseTensor t, ex.asBool? with
+    | some i, some t, some ex => showExcA (alignTensor i t ex)
+    | _, _, _ => "err bad-args"
+  | [Sexp.atom "aligntensors", ts, ex] =>
+    match ts.asList?.bind (·.mapM parseTensor), ex.asBool? with
+    | some ts, some ex =>
+      match alignTensors ts ex with
+      | .ok (i, as) => "ok " ++ toString (Sexp.list [showInputs i, Sexp.list (as.map showArr)])
+      | .error e => showErr e
+    | _, _ => "err bad-args"
+  | [Sexp.atom "materialize", t] =>
+    match parseTerm t with
+    | some t =>
+      match (t.materialize ofNatV).eval opsV with
+      | some r => "ok " ++ toString (showTensor r)
+      | none => "ok lazy"
+    | none => "err bad-args"
+  | [Sexp.atom "denotetable", t, inputs] =>
+    match parseTerm t, parseInputs inputs with
+    | some t, some i =>
+      let names := i.map (·.1)
+      let vals := (points (i.map (·.2))).map fun p =>
+        t.denote ofNatV opsV (fun _ => none) (envOf names p)
+      "ok " ++ toString (Sexp.list (vals.map showV))
+    | _, _ => "err bad-args"
+  | [Sexp.atom "tensortable", t, inputs] =>
+    match parseTensor t, parseInputs inputs with
+    | some t, some i =>
+      let names := i.map (·.1)
+      let vals := (points (i.map (·.2))).flatMap fun p =>
+        (points t.outShape).map fun ev => t.atEnv (envOf names p) ev
+      "ok " ++ toString (Sexp.list (vals.map showV))
+    | _, _ => "err bad-args"
+  | _ => "err bad-request"
 
 end FV.Drv.C19
